@@ -53,6 +53,8 @@ def compute_domains_affine_eq(domains: NDArray, parameters: NDArray) -> int:
         else:
             domain_sum_min -= c * domains[i, MIN]
             domain_sum_max -= c * domains[i, MAX]
+    if domain_sum_min > 0 or domain_sum_max < 0:
+        return PROP_INCONSISTENCY
     old_domains = np.copy(domains)
     for i, c in enumerate(parameters[:-1]):
         if c != 0:
@@ -66,4 +68,15 @@ def compute_domains_affine_eq(domains: NDArray, parameters: NDArray) -> int:
             domains[i, MAX] = min(domains[i, MAX], new_max)
             if domains[i, MIN] > domains[i, MAX]:
                 return PROP_INCONSISTENCY
+    # the new bounds must still allow the equality (in particular when they are all instantiated)
+    domain_sum_min = domain_sum_max = parameters[-1]
+    for i, c in enumerate(parameters[:-1]):
+        if c > 0:
+            domain_sum_min -= c * domains[i, MAX]
+            domain_sum_max -= c * domains[i, MIN]
+        else:
+            domain_sum_min -= c * domains[i, MIN]
+            domain_sum_max -= c * domains[i, MAX]
+    if domain_sum_min > 0 or domain_sum_max < 0:
+        return PROP_INCONSISTENCY
     return PROP_CONSISTENCY
